@@ -734,6 +734,9 @@ func (ro *RedisOutput) parseAofCommand(replayQuit usync.WaitCloser, reader *bufi
 			return errors.Join(ErrCorrupted, err)
 		}
 		aofCmdCounter.Inc(ro.cfg.InputName)
+		// transaction brackets are never withheld by the database filter : an "exec" swallowed because the
+		// transaction switched to a filtered database would leave the sender inside that transaction forever
+		isTxnBracket := sCmd == "multi" || sCmd == "exec"
 
 		// filter db, filter command, filter key
 		if sCmd != "ping" {
@@ -757,14 +760,14 @@ func (ro *RedisOutput) parseAofCommand(replayQuit usync.WaitCloser, reader *bufi
 				ignoresentinel = true
 			}
 
-			if bypass || ignoreCmd || ignoresentinel {
+			if (bypass && !isTxnBracket) || ignoreCmd || ignoresentinel {
 				ro.filterCounterAdd(1)
 				continue
 			}
 		}
 
 		newArgv, reject = ro.outFilter.FilterCmdKey(sCmd, argv)
-		if bypass || reject {
+		if (bypass && !isTxnBracket) || reject {
 			ro.filterCounterAdd(1)
 			continue
 		}
